@@ -280,3 +280,27 @@ Definition matmul_t (ps : list (list key)) (j : nat) (t : mat nat) : mat nat :=
 
 (* to_meshtri(style='x'): p = hstack((doflocs, centres)); the centre of cell k gets number base + k *)
 Definition quad_x_points {P} (p centres : list P) : list P := p ++ centres.
+
+(* ---- MeshQuad1.to_meshtri, boundaries (independent lookup): keys = facets[0] * nv + facets[1];
+        newf = np.searchsorted(keys, key of each tagged facet taken in (stable) increasing order of its number) *)
+Definition facet_key (nv : nat) (f : list nat) : nat := nth 0 f 0 * nv + nth 1 f 0.
+(* np.searchsorted(keys, x) on increasing keys: the number of keys below x *)
+Definition searchsorted (keys : list nat) (x : nat) : nat := length (filter (fun k => k <? x) keys).
+Definition lookup_boundary (nv : nat) (OF NF : mat nat) (ixs : list nat) : list nat :=
+  map (fun i => searchsorted (map (facet_key nv) NF) (facet_key nv (nth i OF []))) (sort_nat ixs).
+(* ori = mesh.f2t[0, newf] % nt != self.f2t[ixs.ori, ixs] *)
+Definition lookup_flag (nt : nat) (f2t0' : list nat) (g : nat) (c : Z) : bool := negb (Z.eqb (Z.of_nat (nth g f2t0' 0 mod nt)) c).
+
+(* stable sort of (facet, flag) pairs by facet: ixs[order], ixs.ori[order] with order = argsort(ixs, kind='stable') *)
+Fixpoint insert_fo (x : nat * bool) (l : list (nat * bool)) : list (nat * bool) :=
+  match l with
+  | [] => [x]
+  | y :: l' => if fst x <=? fst y then x :: l else y :: insert_fo x l'
+  end.
+Definition sort_fo (l : list (nat * bool)) : list (nat * bool) := fold_right insert_fo [] l.
+Definition lookup_oriented (nv nt : nat) (OF NF : mat nat) (f2t : mat Z) (f2t0' : list nat) (ixs : list nat) (ori : list bool)
+  : list nat * list bool :=
+  let ps := sort_fo (combine ixs ori) in
+  let nf (i : nat) := searchsorted (map (facet_key nv) NF) (facet_key nv (nth i OF [])) in
+  (map (fun io => nf (fst io)) ps,
+   map (fun io : nat * bool => lookup_flag nt f2t0' (nf (fst io)) (nth (fst io) (nth (if snd io then 1 else 0) f2t []) (- 1)%Z)) ps).
